@@ -172,7 +172,22 @@ func RunWorker(id, tier string, shard, nshards int, outPath string) error {
 		return err
 	}
 	if err := json.NewEncoder(f).Encode(out); err != nil {
-		return err
+		// never lose violations to an encoding problem: retry with details and samples flattened to strings
+		for _, st := range out.Phases {
+			for i := range st.Violations {
+				st.Violations[i].Detail = map[string]any{"detail": fmt.Sprint(st.Violations[i].Detail)}
+			}
+			for i := range st.Samples {
+				st.Samples[i] = fmt.Sprint(st.Samples[i])
+			}
+		}
+		f.Close()
+		if f, err = os.Create(outPath); err != nil {
+			return err
+		}
+		if err := json.NewEncoder(f).Encode(out); err != nil {
+			return err
+		}
 	}
 	f.Close()
 	// side file with the hash sets so the coordinator can count distinct
